@@ -24,261 +24,342 @@ use crate::hfs::*;
 
 pub const SEP: &[u8] = b"\n";
 
-pub const P0: &str = "logs/app.2024-01-01-00.00000000.00000001.log";
+/// The shortest path from which `read_file_path_ts` can extract a period part (`prefix.period`): the open
+/// kernels do not look at the name beyond that, and every path-parsing loop is bounded by its length
+/// (naming itself is the subject of the C11 harnesses).
+pub const P0: &str = "a.t";
 
-/// Fill slot 0 with `n <= 4` symbolic bytes, `synced <= written` symbolic.
+/// Fill slot 0 with `n <= max <= 2` symbolic bytes, `synced <= written` symbolic.
 #[cfg(kani)]
-fn sym_old(max: usize) -> ([u8; 4], usize) {
+fn sym_old(max: usize) -> (u128, usize) {
     let s = st();
-    let old: [u8; 4] = kani::any();
+    let old: [u8; 2] = kani::any();
     let n: usize = kani::any();
-    kani::assume(n <= max && max <= 4);
+    kani::assume(n <= max && max <= 2);
     s.exists[0] = true;
-    let mut i = 0;
-    while i < 4 {
-        if i < n {
-            s.data[0][i] = old[i];
-        }
-        i += 1;
+    if n >= 1 {
+        s.data[0][0] = old[0];
+    }
+    if n >= 2 {
+        s.data[0][1] = old[1];
     }
     s.written[0] = n;
     let sy: usize = kani::any();
     kani::assume(sy <= n);
     s.synced[0] = sy;
-    (old, n)
+    (pack(&old), n)
 }
 
-/// Expected byte string builder (fixed array, explicit length).
-pub struct Exp {
-    pub b: [u8; CAP],
-    pub n: usize,
-}
+const SEPV: u128 = b'\n' as u128;
 
-impl Exp {
-    pub fn new() -> Self {
-        Exp { b: [0; CAP], n: 0 }
-    }
-    pub fn push(&mut self, s: &[u8]) {
-        let mut i = 0;
-        while i < s.len() {
-            if self.n < CAP {
-                self.b[self.n] = s[i];
-                self.n += 1;
-            }
-            i += 1;
-        }
-    }
-}
-
-/// data[0][..written] == exp[..written]
-fn content_is_prefix_of(exp: &Exp) -> bool {
-    let s = st();
-    let w = s.written[0];
-    if w > exp.n {
-        return false;
-    }
-    let mut i = 0;
-    while i < CAP {
-        if i < w && s.data[0][i] != exp.b[i] {
-            return false;
-        }
-        i += 1;
-    }
-    true
-}
-
+/// A symbolic event buffer of 1..=EV bytes (the batch items always end with the separator, so they
+/// are never empty; their content is unconstrained here).
 #[cfg(kani)]
-fn sym_event() -> ([u8; 3], usize) {
-    let ev: [u8; 3] = kani::any();
+fn sym_event<const EV: usize>() -> ([u8; EV], usize) {
+    let ev: [u8; EV] = kani::any();
     let n: usize = kani::any();
-    kani::assume(n <= 3);
+    kani::assume(n >= 1 && n <= EV);
     (ev, n)
 }
 
+/// (W1), (W2): one step from an arbitrary state, one fault of kind `KIND` at a symbolic call index.
 #[cfg(kani)]
-fn step(twin: bool) {
+fn step<const KIND: u8, const EV: usize, const SIZE: bool>(twin: bool) -> Obs {
     reset();
     st().names[0] = P0;
-    let (old, old_n) = sym_old(4);
+    let (old, old_n) = sym_old(2);
     let nr: bool = kani::any();
     let size: usize = kani::any();
     // representation invariant: the recorded size is the size of a file that can exist
     kani::assume(size <= (1usize << 62));
-    let (ev, n) = sym_event();
-    // write_event makes at most: 1 write (separator) + up to 3 writes for the event (partial writes, EINTR)
-    sym_fault(5);
+    let (ev, n) = sym_event::<EV>();
+    // write_event makes at most 1 write for the separator + EV + 1 writes for the event
+    sym_fault(KIND, EV + 2);
 
     let mut f = VActiveFile::from_state(HFile { slot: 0 }, PathBuf::new(), String::new(), nr, size);
     let r = f.write_event(&ev[..n], SEP);
+    let ok = r.is_ok();
+    core::mem::forget(r);
 
     let mut exp = Exp::new();
-    exp.push(&old[..old_n]);
+    exp.push(old, old_n);
     if nr && !twin {
-        exp.push(SEP);
+        exp.push(SEPV, 1);
     }
-    exp.push(&ev[..n]);
+    exp.push(pack(&ev), n);
 
     let s = st();
     assert!(!s.overflowed, "harness sizes");
     // (W1)
     assert!(s.written[0] >= old_n, "write_event never shrinks the file");
-    assert!(content_is_prefix_of(&exp), "content = old ++ [sep iff recovery needed] ++ prefix(event)");
+    assert!(exp.has_prefix_content(0), "content = old ++ [sep iff recovery needed] ++ prefix(event)");
     // (W2)
     let whole = s.written[0] == exp.n;
-    assert!(r.is_ok() == whole, "Ok iff the whole record was appended");
-    assert!(f.needs_recovery() == r.is_err(), "needs_recovery cleared iff the whole record was written");
-    if r.is_ok() {
+    assert!(!ok || whole, "reported as written only if the whole record was appended");
+    assert!(f.needs_recovery() || whole, "needs_recovery is cleared only if the whole record was written");
+    assert!(ok || f.needs_recovery(), "after a failed write the file is in the needs-recovery state");
+    if ok && SIZE {
+        // C11 (size-limit clause): the size the rolling decision uses grows by exactly what was appended
         assert!(f.size_bytes() - size == s.written[0] - old_n, "size accounting on success");
     }
 
-    kani::cover!(r.is_ok() && nr && n == 3, "clean write with recovery separator");
-    kani::cover!(r.is_ok() && !nr && s.faulted, "partial write / EINTR absorbed by write_all");
-    kani::cover!(r.is_err() && s.written[0] > old_n && !whole, "torn record");
-    kani::cover!(r.is_err() && nr && s.written[0] == old_n, "separator write failed");
-    kani::cover!(r.is_err() && nr && s.written[0] == old_n + 1, "separator written, event not");
     core::mem::forget(f);
+    Obs { ok, nr, faulted: s.faulted, grown: s.written[0] - old_n, n }
+}
+
+/// What the per-kind harnesses build their reachability witnesses from.
+pub struct Obs {
+    pub ok: bool,
+    pub nr: bool,
+    pub faulted: bool,
+    /// bytes appended by the call
+    pub grown: usize,
+    /// event length
+    pub n: usize,
 }
 
 #[cfg(kani)]
 #[kani::proof]
-#[kani::unwind(18)]
-pub fn c10_q_write_event_step() {
-    step(false)
+#[kani::unwind(6)]
+pub fn c10_q_write_step_err() {
+    let o = step::<K_ERR, 2, false>(false);
+    kani::cover!(o.ok && o.nr && o.n == 2, "clean write with recovery separator");
+    kani::cover!(o.ok && !o.nr && !o.faulted, "clean write without separator");
+    kani::cover!(!o.ok && o.nr && o.grown == 0, "separator write failed");
+    kani::cover!(!o.ok && o.nr && o.grown == 1, "separator written, event not");
+}
+
+#[cfg(kani)]
+#[kani::proof]
+#[kani::unwind(6)]
+pub fn c10_q_write_step_short() {
+    let o = step::<K_SHORT, 2, false>(false);
+    kani::cover!(!o.ok && !o.nr && o.grown == 1 && o.n == 2, "torn record");
+    kani::cover!(!o.ok && o.nr && o.grown == 2 && o.n == 2, "separator and torn record");
+    kani::cover!(o.ok && o.faulted, "fault armed after the last write");
+}
+
+#[cfg(kani)]
+#[kani::proof]
+#[kani::unwind(6)]
+pub fn c10_q_write_step_part() {
+    let o = step::<K_PART, 2, false>(false);
+    kani::cover!(o.ok && o.faulted && o.n == 2, "partial write completed by write_all");
+}
+
+#[cfg(kani)]
+#[kani::proof]
+#[kani::unwind(6)]
+pub fn c10_t_write_step_intr() {
+    let o = step::<K_INTR, 2, false>(false);
+    kani::cover!(o.ok && o.faulted, "EINTR retried by write_all");
+}
+
+#[cfg(kani)]
+#[kani::proof]
+#[kani::unwind(6)]
+pub fn c10_t_write_step_short3() {
+    let o = step::<K_SHORT, 3, false>(false);
+    kani::cover!(!o.ok && o.grown == 2 && o.n == 3 && !o.nr, "torn record, 2 of 3 bytes");
+}
+
+#[cfg(kani)]
+#[kani::proof]
+#[kani::unwind(6)]
+pub fn c10_t_write_step_part3() {
+    let o = step::<K_PART, 3, false>(false);
+    kani::cover!(o.ok && o.faulted && o.n == 3, "partial write completed by write_all");
+}
+
+/// C11, size-limit clause: `file_size_bytes` after a successful `write_event` = before + bytes appended.
+#[cfg(kani)]
+#[kani::proof]
+#[kani::unwind(6)]
+pub fn c11_q_write_size() {
+    let o = step::<K_PART, 2, true>(false);
+    kani::cover!(o.ok && o.nr && o.n == 2, "sized a record with recovery separator");
+    kani::cover!(o.ok && !o.nr && o.faulted, "sized a record written in two parts");
 }
 
 /// Mutant twin: claims no separator is written when recovery is needed - must FAIL.
 #[cfg(kani)]
 #[kani::proof]
-#[kani::unwind(18)]
-pub fn c10_w_write_event_step_no_sep() {
-    step(true)
+#[kani::unwind(6)]
+pub fn c10_w_write_step_no_sep() {
+    let o = step::<K_ERR, 2, false>(true);
+    kani::cover!(o.ok, "written");
 }
 
-/// (W3): two consecutive `write_event`s with one fault anywhere.
+/// (W3): two consecutive `write_event`s on the same `ActiveFile` with one fault anywhere.
 #[cfg(kani)]
-#[kani::proof]
-#[kani::unwind(18)]
-pub fn c10_q_write_event_two() {
+fn two<const KIND: u8, const EV: usize>(twin: bool) {
     reset();
     st().names[0] = P0;
-    let (old, old_n) = sym_old(2);
+    let (old, old_n) = sym_old(1);
     let nr: bool = kani::any();
-    let (e1, n1) = sym_event();
-    let (e2, n2) = sym_event();
-    kani::assume(n1 >= 1 && n2 >= 1);
-    sym_fault(8);
+    let (e1, n1) = sym_event::<EV>();
+    let (e2, n2) = sym_event::<EV>();
+    sym_fault(KIND, 2 * EV + 4);
 
     let mut f = VActiveFile::from_state(HFile { slot: 0 }, PathBuf::new(), String::new(), nr, old_n);
     let r1 = f.write_event(&e1[..n1], SEP);
+    let ok1 = r1.is_ok();
+    core::mem::forget(r1);
     let w1 = st().written[0];
+    let c1 = content(0);
     let r2 = f.write_event(&e2[..n2], SEP);
+    let ok2 = r2.is_ok();
+    core::mem::forget(r2);
 
-    // expected: old ++ [sep] ++ e1[..k1] ++ (sep if first failed) ++ e2
+    // expected: old ++ [sep] ++ e1      ++ e2          when the first call succeeded
+    //           (what the failed first call left) ++ sep ++ e2   otherwise
     let mut exp = Exp::new();
-    exp.push(&old[..old_n]);
-    if nr {
-        exp.push(SEP);
-    }
-    if r1.is_ok() {
-        exp.push(&e1[..n1]);
+    if ok1 {
+        exp.push(old, old_n);
+        if nr {
+            exp.push(SEPV, 1);
+        }
+        exp.push(pack(&e1), n1);
     } else {
-        // what the failed first call left behind, then the recovery separator
-        let s = st();
-        let mut e = Exp::new();
-        e.push(&s.data[0][..w1]);
-        exp = e;
-        exp.push(SEP);
+        exp.push(c1, w1);
+        if !twin {
+            exp.push(SEPV, 1);
+        }
     }
-    exp.push(&e2[..n2]);
+    exp.push(pack(&e2), n2);
 
     let s = st();
     assert!(!s.overflowed, "harness sizes");
-    assert!(content_is_prefix_of(&exp), "second record starts on a record boundary");
-    assert!(r2.is_ok() == (s.written[0] == exp.n));
-    if r1.is_err() && s.written[0] > w1 {
-        assert!(s.data[0][w1] == SEP[0], "a separator follows the torn record");
-    }
-    if r1.is_ok() && r2.is_ok() {
+    assert!(exp.has_prefix_content(0), "the second record starts on a record boundary");
+    assert!(!ok2 || s.written[0] == exp.n, "reported as written only if the whole second record was appended");
+    if ok1 && ok2 {
         // the acknowledgement sequence of on_batch: flush, then sync_all
-        let ok = f.flush().is_ok() && f.sync_all().is_ok();
-        if ok {
+        let r = f.flush();
+        let mut acked = r.is_ok();
+        core::mem::forget(r);
+        if acked {
+            let r = f.sync_all();
+            acked = r.is_ok();
+            core::mem::forget(r);
+        }
+        if acked {
             assert!(st().synced[0] == exp.n, "acknowledged content is synced content");
         }
-        kani::cover!(ok, "both written and synced");
+        kani::cover!(acked, "both written and synced");
     }
-    kani::cover!(r1.is_err() && r2.is_ok() && w1 > old_n, "torn first record, second complete");
-    kani::cover!(r1.is_ok() && r2.is_err(), "fault in second record");
+    kani::cover!(!ok1 && ok2 && w1 > old_n, "torn first record, second complete");
+    kani::cover!(ok1 && !ok2, "fault in second record");
     core::mem::forget(f);
 }
 
-/// (R1): reuse of an existing file with an arbitrary (possibly torn) tail.
 #[cfg(kani)]
-fn reuse(twin: bool) {
+#[kani::proof]
+#[kani::unwind(6)]
+pub fn c10_q_write_two_short() {
+    two::<K_SHORT, 2>(false)
+}
+
+#[cfg(kani)]
+#[kani::proof]
+#[kani::unwind(6)]
+pub fn c10_t_write_two_err() {
+    two::<K_ERR, 2>(false)
+}
+
+/// Mutant twin: claims the record after a torn one is appended directly - must FAIL.
+#[cfg(kani)]
+#[kani::proof]
+#[kani::unwind(6)]
+pub fn c10_w_write_two_run_together() {
+    two::<K_SHORT, 2>(true)
+}
+
+/// (R1): reuse of an existing file with an arbitrary (possibly torn) tail. `WRITE`: also perform the
+/// first `write_event` (otherwise that step is the (W1) harness from the state asserted here).
+#[cfg(kani)]
+fn reuse<const KIND: u8, const WRITE: bool>(twin: bool) -> (bool, usize, u8, bool) {
+    let (mut opened, mut wrote, mut torn) = (false, 0u8, false);
     reset();
     st().names[0] = P0;
-    let (old, old_n) = sym_old(4);
-    let (ev, n) = sym_event();
-    kani::assume(n >= 1);
-    // open_existing, len, then write_event's writes
-    sym_fault(6);
+    let (old, old_n) = sym_old(2);
+    let (ev, n) = sym_event::<2>();
+    // open_existing, len, then write_event's writes (separator + up to 3)
+    sym_fault(KIND, if WRITE { 6 } else { 2 });
     let fs = FsAdapter(HFs);
     let r = VActiveFile::try_open_reuse(&fs, Path::new(P0));
     let s = st();
     match r {
         Ok(mut f) => {
-            assert!(f.needs_recovery(), "a reused file is in the needs-recovery state");
+            assert!(f.needs_recovery() != twin, "a reused file is in the needs-recovery state");
             assert!(f.size_bytes() == old_n, "size = current length");
             assert!(s.written[0] == old_n, "opening does not write");
             assert!(count_op(OP_OPEN_EXISTING) == 1 && count_op(OP_OPEN_NEW) == 0);
-            let w = f.write_event(&ev[..n], SEP);
-            let mut exp = Exp::new();
-            exp.push(&old[..old_n]);
-            if !twin {
-                exp.push(SEP);
+            if WRITE {
+                let w = f.write_event(&ev[..n], SEP);
+                let ok = w.is_ok();
+                core::mem::forget(w);
+                let mut exp = Exp::new();
+                exp.push(old, old_n);
+                exp.push(SEPV, 1);
+                exp.push(pack(&ev), n);
+                assert!(exp.has_prefix_content(0), "reused file: the first append is a separator");
+                assert!(!ok || st().written[0] == exp.n);
+                wrote = 1 + (ok as u8);
+                torn = !ok && st().written[0] > old_n;
             }
-            exp.push(&ev[..n]);
-            assert!(content_is_prefix_of(&exp), "reused file: first append is a separator");
-            assert!(w.is_ok() == (st().written[0] == exp.n));
-            kani::cover!(w.is_ok(), "reuse then complete write");
-            kani::cover!(w.is_err() && st().written[0] > old_n, "reuse then torn write");
+            opened = true;
             core::mem::forget(f);
         }
-        Err(_) => {
-            assert!(s.written[0] == old_n, "failed open leaves the file alone");
-            kani::cover!(s.faulted, "open for reuse failed");
+        Err(e) => {
+            core::mem::forget(e);
+            assert!(s.written[0] == old_n, "a failed open leaves the file alone");
         }
     }
     assert!(!st().overflowed, "harness sizes");
+    (opened, old_n, wrote, torn)
 }
 
 #[cfg(kani)]
 #[kani::proof]
-#[kani::unwind(48)]
+#[kani::unwind(6)]
 pub fn c10_q_open_reuse() {
-    reuse(false)
+    let (opened, old_n, _, _) = reuse::<K_ERR, false>(false);
+    kani::cover!(opened && old_n == 2, "reused a non-empty file");
+    kani::cover!(!opened && st().faulted, "open for reuse failed");
 }
 
 #[cfg(kani)]
 #[kani::proof]
-#[kani::unwind(48)]
-pub fn c10_w_open_reuse_no_sep() {
-    reuse(true)
+#[kani::unwind(6)]
+pub fn c10_t_open_reuse_write() {
+    let (opened, old_n, wrote, torn) = reuse::<K_SHORT, true>(false);
+    kani::cover!(opened && wrote == 2, "reuse then complete write");
+    kani::cover!(opened && torn, "reuse then torn write");
+}
+
+/// Mutant twin: claims a reused file is clean - must FAIL.
+#[cfg(kani)]
+#[kani::proof]
+#[kani::unwind(6)]
+pub fn c10_w_open_reuse_clean() {
+    let (opened, _, _, _) = reuse::<K_ERR, false>(true);
+    kani::cover!(opened, "reused");
 }
 
 /// (N1): exclusive create + directory entry sync.
 #[cfg(kani)]
 #[kani::proof]
-#[kani::unwind(48)]
+#[kani::unwind(6)]
 pub fn c10_q_open_create() {
     reset();
     st().names[0] = P0;
     let pre_exists: bool = kani::any();
     if pre_exists {
-        let _ = sym_old(4);
+        let _ = sym_old(2);
     }
     let pre_w = st().written[0];
     // open_new, sync_parent
-    sym_fault(2);
+    sym_fault(K_ERR, 2);
     let fs = FsAdapter(HFs);
     let r = VActiveFile::try_open_create(&fs, Path::new(P0));
     let s = st();
@@ -292,7 +373,8 @@ pub fn c10_q_open_create() {
             kani::cover!(true, "created");
             core::mem::forget(f);
         }
-        Err(_) => {
+        Err(e) => {
+            core::mem::forget(e);
             if pre_exists {
                 assert!(s.written[0] == pre_w, "an existing file is left alone");
             }
